@@ -1103,6 +1103,7 @@ fn replay(rf: &Value) {
     let mut stats = CaseStats::default();
     let mut findings = run_case(&case, &entries, &scratch, &mut outcomes, &mut stats);
     dedupe(&mut findings);
+    drop(scratch); // process::exit skips destructors
     let mut hit = false;
     for f in findings.iter() {
         println!("finding {}\n    {}", f.sig, f.detail);
